@@ -16,18 +16,18 @@ TECHNIQUE = {
     "C01": "MIR/HIR table extraction (visit_T->serialize_T type identity, def-use of payload), trait-impl exhaustiveness, resolved cargo feature graph cross-checked with ADT facts",
     "C02": "must-pass-through on MIR CFG (encoding detection gates the whole-text path) + sibling cross-check of slice/reader arms",
     "C03": "per-path framing obligations on MIR CFGs (dominance / post-dominance of literal writes), who-may-call, deny-list of reordering adaptors",
-    "C04": "panic-edge inventory over MIR (Assert terminators + panicking callees) against a reviewed multiset with re-verified dominating guards; call-graph SCC budget check",
-    "C05": "who-may-call (slurping APIs) + def-use of Take limits to constants + dominance order of detection trials",
-    "C06": "resolved cargo feature graph + ADT field cross-check (serde_json float_roundtrip)",
+    "C04": "panic-edge inventory over MIR (Assert terminators + panicking callees): each edge is proved dead by a local argument (interval analysis with branch refinement, sub-slice length difference, min-with-len bounds) or must be within a reviewed multiset with re-verified dominating guards; use-once typestate; call-graph SCC budget check",
+    "C05": "who-may-call (slurping APIs, in the library and in the CLI) + def-use of Take limits to constants + order of detection trials (straight-line or table-driven) + value-flow of the size-cap comparison + per-document emptying of the capture buffer",
+    "C06": "resolved cargo feature graph + ADT field cross-check (serde_json float_roundtrip); scalar type-identity tables of both transcoding paths (visit_T -> serialize_T)",
     "C07": "decision-table equivalence (HIR pattern table vs YAML 1.2.2 section 5.2), interval analysis on MIR for from_u32_unchecked, must-pass-through for encoding detection",
     "C08": "interprocedural path-sensitive dominance over inlined MIR (guard/typestate of the TOML sink), def-use of written bytes",
-    "C09": "typestate via field-projection who-may-access + dominance of rewind, def-use of trial arguments, error-provenance classification per Err return path",
-    "C10": "dominance order of trial calls, HIR pattern table vs rmp::Marker ADT variants",
+    "C09": "typestate via field-projection who-may-access + dominance of rewind, def-use of trial arguments (inline or table-driven driver), error-provenance classification per Err return path, error-kind wrapping of the chunker's parser poll, input-kind independence of trial verdicts (one recorded finding)",
+    "C10": "order of trial calls (dominance or table order), HIR pattern table vs rmp::Marker ADT variants, path-sensitive edge dominance of the TOML size cap by the reader arm",
     "C11": "field-write invariant over Cell setters, constant propagation of the ErrorSource argument at each synthetic error site, Display template/argument check",
     "C12": "unused-Result dataflow over all MIR call sites (reviewed exceptions), def-use of the stashed reader error, return-value pass-through of flush layers",
-    "C13": "CFG rules on main/parse_args: constant exit codes, must-reach / dominance of stderr writes, who-may-call stdout, HIR option tables vs doc/xt.1",
+    "C13": "rules over the inlined supergraph of main (context-sensitive, variant-aware failure continuations): constant exit codes, must-pass-through of stderr writes, who-may-call stdout, HIR option tables vs doc/xt.1",
     "C14": "def-use of the `from` operand into translate_* calls (option-fallback idioms), HIR extension table vs manual, bool-guard dominance for stdin",
-    "C15": "must-pass-through on main's CFG: translate_* success edge -> flush before back edge / return / exit; return-value pass-through of flush layers",
+    "C15": "must-pass-through on the inlined supergraph of main: translate_* success continuation -> flush before the next translate / return / exit; return-value pass-through of flush layers",
     "C16": "per-method def-use (inner same-named call -> broken-pipe check -> return), CFG of the check (BrokenPipe edge diverges into signal+raise), type containment of StdoutLock",
     "C17": "unsafe-operation inventory over MIR/HIR, guard dominance for copy_nonoverlapping and raw derefs, into_raw/from_raw pairing and order, interval analysis for unchecked chars",
     "C18": "constant propagation of depth limits to every set_max_depth site, construct-then-configure typestate on rmp_serde::Deserializer locals, budget recurrence of the size calculator, feature graph",
